@@ -106,6 +106,14 @@ CHECKS['C04'] = dict(level=MC, ref='4 C04',
          'relative, named in the check) and enter the trace as verdict bits that the spec requires to be TRUE - observed, not modelled. eig (bi-orthonormal pairs) and low-rank policies not covered. '
          'bounded: 480 (quick) / 8000 (thorough) programs, ranks 2..6, all symmetries',
     technique='TLA+ structure semantics of factorisations (TensorOps) + TLC trace validation; numeric clauses as measured verdicts')
+CHECKS['C06'] = dict(level=MC, ref='4 C06',
+    text='Registers hold alpha(to_tensor()) of real MPS/MPO objects whose site tensors are small integers, so every object has an exact Gaussian-integer dense representative. TLC (TraceTensor m_* events) '
+         'recomputes every result of the MPS algebra from the OBSERVED operands with the tensor reference semantics: sums with amplitudes (LinComb fold), scalar multiplication and division incl. the '
+         'separate norm factor (|c| bookkeeping), MPO@MPS (Dot over bra legs), MPO@MPO, conj, transpose, conjugate-transpose, reverse_sites; measure_overlap / measure_mpo (single MPO, sums of MPOs with '
+         'amplitudes, charged MPOs and their conj/H between the states they connect) are exact numbers.',
+    note='bounded: chain lengths 1..4 (dense representative <= 300 elements), bond dimension 1..3, 12 families (spin-1/2, spin-1, spinless, spinful fermions x symmetries), 240/4000 expression programs of '
+         '10/14 steps. mps_from_tensor, zipper and compression_ (SVD-based) and MpoPBC are not covered; the zero state (empty site tensors) is not used as an operand',
+    technique='TLA+ tensor reference semantics applied to dense representatives + TLC trace validation of recorded MPS expression programs')
 NA = {}
 m = {"version": 1, "setup_cmd": "true",
      "hooks": {"guard": "YASTN_VERIF", "enable": "no source hooks so far: the harness wraps the public API from outside and imports yastn live from /repo (override: VERIF_REPO)",
